@@ -863,43 +863,21 @@ theorem cmp_zero_magQ (w1 w2 : Dec) (h1 : w1.form = .finite) (h2 : w2.form = .fi
   rw [← align w1.coeff w1.exp (min w1.exp w2.exp) (by omega), ← align w2.coeff w2.exp (min w1.exp w2.exp) (by omega),
     h']
 
-open Apd.MulL in
-/-- the exactness re-check of `Sqrt`: when the product is delivered and compares equal to `x`, the square of
-the result is `x` -/
-theorem mul_sq_cmp (w x : Dec) (hw : w.form = .finite) (hx : x.form = .finite) (hxn : x.neg = false)
-    (herr : (mulOp baseCtx w w).err = .none) (hcmp : (mulOp baseCtx w w).d.cmp x = 0) :
-    (magQ w) ^ 2 = magQ x := by
-  rw [Apd.Props.mulOp_finite baseCtx w w hw hw] at herr hcmp
-  simp only [finish] at herr hcmp
-  have hneg : (w.neg != w.neg) = false := by cases w.neg <;> rfl
-  rw [hneg] at herr hcmp
-  have hns := Apd.MulL.noSys_of_delivered (Or.inl herr : Delivered _)
-  obtain ⟨hns1, hns2⟩ := noSys_or.1 hns
-  obtain ⟨k1, k2, k3⟩ := setExponent_noSys _ _ _ _ hns1
-  have hsum : sumInts [w.exp, w.exp] = w.exp + w.exp := by simp [sumInts]
-  have e1 : setExponent baseCtx { form := .finite, neg := false, exp := 0, coeff := w.coeff * w.coeff } {} [w.exp, w.exp] =
-      ({ form := .finite, neg := false, exp := w.exp + w.exp, coeff := w.coeff * w.coeff }, {}) := by
-    rw [setExponent_normal baseCtx _ {} _ k1 k3 k2 k3 (by decide), hsum]
-    simp [seFinish]
-  rw [e1] at hns2 hcmp
-  simp only [] at hns2 hcmp
-  rw [ctxRound_finite _ _ rfl] at hns2 hcmp
-  unfold ctxRoundFin at hns2 hcmp
-  rw [roundX_prec0 baseCtx _ rfl] at hns2 hcmp
-  obtain ⟨j1, j2, j3⟩ := setExponent_noSys _ _ _ _ hns2
-  have hsum1 : sumInts [w.exp + w.exp] = w.exp + w.exp := by simp [sumInts]
-  have e2 : setExponent baseCtx { form := .finite, neg := false, exp := w.exp + w.exp, coeff := w.coeff * w.coeff } {}
-        [w.exp + w.exp] =
-      ({ form := .finite, neg := false, exp := w.exp + w.exp, coeff := w.coeff * w.coeff }, {}) := by
-    rw [setExponent_normal baseCtx _ {} _ j1 j3 j2 j3 (by decide), hsum1]
-    simp [seFinish]
-  rw [e2] at hcmp
-  have := cmp_zero_magQ _ x rfl hx rfl hxn hcmp
-  rw [← this]
+/-- the value of the square formed on the coefficient (`sq.Coeff.Mul(&d.Coeff, &d.Coeff); sq.Exponent = 2 * d.Exponent`) -/
+theorem magQ_sq (w : Dec) :
+    magQ { coeff := w.coeff * w.coeff, exp := 2 * w.exp } = (magQ w) ^ 2 := by
   unfold magQ
   simp only []
   push_cast
-  rw [zpow_add₀ ten_ne]; ring
+  rw [two_mul, zpow_add₀ ten_ne]; ring
+
+/-- the exactness re-check of `Sqrt`: when the square formed on the coefficient compares equal to `x`, the
+square of the result is `x` -/
+theorem mul_sq_cmp (w x : Dec) (hx : x.form = .finite) (hxn : x.neg = false)
+    (hcmp : ({ coeff := w.coeff * w.coeff, exp := 2 * w.exp } : Dec).cmp x = 0) :
+    (magQ w) ^ 2 = magQ x := by
+  rw [← magQ_sq w]
+  exact cmp_zero_magQ _ x rfl hx rfl hxn hcmp
 
 /-! ## the end of `Context.Sqrt`: final rounding, exactness re-check, packaging -/
 
@@ -928,8 +906,8 @@ theorem tail_final (c : Ctx) (x : Dec) (hc : c.WF) (ht : c.traps = {}) (hx : x.f
     let r : Dec × Cond := (r2.1, fl ||| r2.2)
     let res :=
       if !r.2.inexact && r.1.form == .finite then
-        let sq := mulOp baseCtx r.1 r.1
-        if sq.err != .none || sq.d.cmp x != 0 then r.2 ||| cInexact ||| cRounded else r.2
+        let sq : Dec := { coeff := r.1.coeff * r.1.coeff, exp := 2 * r.1.exp }
+        if sq.cmp x != 0 then r.2 ||| cInexact ||| cRounded else r.2
       else r.2
     let o := finish (nc2 c) (r.1, res)
     o.err = .none ∧ (specSqrt c x).matches o.d = true ∧ fits c o.d = true ∧
@@ -944,7 +922,7 @@ theorem tail_final (c : Ctx) (x : Dec) (hc : c.WF) (ht : c.traps = {}) (hx : x.f
   -- `res` contains `r.2`
   have hres : res = r.2 ∨ res = r.2 ||| cInexact ||| cRounded := by
     by_cases h1 : (!r.2.inexact && r.1.form == .finite) = true
-    · by_cases h2 : ((mulOp baseCtx r.1 r.1).err != .none || (mulOp baseCtx r.1 r.1).d.cmp x != 0) = true
+    · by_cases h2 : (({ coeff := r.1.coeff * r.1.coeff, exp := 2 * r.1.exp } : Dec).cmp x != 0) = true
       · right; show (if _ then _ else _) = _; rw [if_pos h1]; simp only []; rw [if_pos h2]
       · left; show (if _ then _ else _) = _; rw [if_pos h1]; simp only []; rw [if_neg h2]
     · left; show (if _ then _ else _) = _; rw [if_neg h1]
@@ -969,13 +947,11 @@ theorem tail_final (c : Ctx) (x : Dec) (hc : c.WF) (ht : c.traps = {}) (hx : x.f
     · have hcond : (!r.2.inexact && r.1.form == .finite) = true := by
         have : r.1.form = .finite := hfin
         simp [hri, this]
-      have hsq : ((mulOp baseCtx r.1 r.1).err != .none || (mulOp baseCtx r.1 r.1).d.cmp x != 0) = true := by
+      have hsq : (({ coeff := r.1.coeff * r.1.coeff, exp := 2 * r.1.exp } : Dec).cmp x != 0) = true := by
         by_contra hno
-        have h1 : (mulOp baseCtx r.1 r.1).err = .none := by
-          cases h : (mulOp baseCtx r.1 r.1).err <;> simp [h] at hno ⊢
-        have h2 : (mulOp baseCtx r.1 r.1).d.cmp x = 0 := by
-          by_contra h; simp [h1, h] at hno
-        have := mul_sq_cmp r.1 x hfin hx hxn h1 h2
+        have h2 : ({ coeff := r.1.coeff * r.1.coeff, exp := 2 * r.1.exp } : Dec).cmp x = 0 := by
+          by_contra h; simp [h] at hno
+        have := mul_sq_cmp r.1 x hx hxn h2
         have hmr : magQ r.1 = magQ v := hmv
         rw [hmr, hval] at this
         have : ((sM c x : ℚ)) ^ 2 = magQ x / ((10 : ℚ) ^ sQ c x) ^ 2 := by
@@ -1352,6 +1328,54 @@ theorem tail_core (c : Ctx) (x d : Dec) (h : Int) (δ : ℚ) (hc : c.WF) (hx : x
         · exact Apd.MulL.noSys_or.2 ⟨s3, i3⟩
         · show magQ (ctxRound (ncw c) (settleT (ncw c) t x)).1 = _
           rw [i1, hval']
+
+/-! ## the tail of `Context.Sqrt` as a composition
+
+`SqrtD.tail` is one `let` chain; the theorems above describe its two halves as `let` chains of their own.  To
+apply them to `tail` without asking the elaborator to compare the fully substituted chains, the halves are
+named here (`tailMid`, `tailFin`) and `sqrt_tail_eq` says — by `rfl` — that `tail` is their composition. -/
+
+/-- the tail of `Context.Sqrt` up to the settled value: first rounding and settling step -/
+def tailMid (c : Ctx) (x d : Dec) : Dec × Cond :=
+  let r0 := ctxRound (ncw c) d
+  if r0.2.inexact && r0.1.form == .finite then
+    let st := sqrtSettle (ncw c) r0.1 d x
+    (st.1, r0.2 ||| st.2)
+  else r0
+
+/-- the end of the tail of `Context.Sqrt`: final rounding, exactness re-check, packaging -/
+def tailFin (c : Ctx) (x v : Dec) (fl : Cond) : Out :=
+  let r2 := ctxRound (nc2 c) v
+  let r : Dec × Cond := (r2.1, fl ||| r2.2)
+  let res :=
+    if !r.2.inexact && r.1.form == .finite then
+      let sq : Dec := { coeff := r.1.coeff * r.1.coeff, exp := 2 * r.1.exp }
+      if sq.cmp x != 0 then r.2 ||| Cond.cInexact ||| Cond.cRounded else r.2
+    else r.2
+  finish (nc2 c) (r.1, res)
+
+theorem sqrt_tail_eq (c : Ctx) (x approx : Dec) :
+    SqrtD.tail c x approx =
+      tailFin c x (tailMid c x { approx with exp := approx.exp + Int.tdiv (SqrtD.e x) 2 }).1
+        (tailMid c x { approx with exp := approx.exp + Int.tdiv (SqrtD.e x) 2 }).2 := rfl
+
+/-- `tail_core` on `tailMid` -/
+theorem tailMid_core (c : Ctx) (x d : Dec) (h : Int) (δ : ℚ) (hc : c.WF) (hx : x.form = .finite)
+    (hxn : x.neg = false) (H : DHyp c x d h δ) :
+    Grid c.prec c.emin (tailMid c x d).1 ∧ NoSys (tailMid c x d).2 ∧
+      magQ (tailMid c x d).1 = (sM c x : ℚ) * (10 : ℚ) ^ (sQ c x) :=
+  tail_core c x d h δ hc hx hxn H
+
+/-- `tail_final` on `tailFin` -/
+theorem tailFin_final (c : Ctx) (x : Dec) (hc : c.WF) (ht : c.traps = {}) (hx : x.form = .finite)
+    (hxn : x.neg = false) (hx0 : x.coeff ≠ 0)
+    (v : Dec) (fl : Cond) (G : Grid c.prec c.emin v) (hfl : NoSys fl)
+    (hval : magQ v = (sM c x : ℚ) * (10 : ℚ) ^ (sQ c x)) :
+    (tailFin c x v fl).err = .none ∧ (specSqrt c x).matches (tailFin c x v fl).d = true ∧
+    fits c (tailFin c x v fl).d = true ∧
+    ((specSqrt c x).inexact = true → (tailFin c x v fl).fl.inexact = true) ∧
+    ((specSqrt c x).overflow = true → (tailFin c x v fl).fl.overflow = true) :=
+  tail_final c x hc ht hx hxn hx0 v fl G hfl hval
 
 end Apd.C11Q
 
